@@ -52,6 +52,22 @@ var installers = []func(dst, src *secp256k1.Scalar){
 	func(dst, src *secp256k1.Scalar) { _ = dst.CSelect(^uint64(0), dst, src) },
 	func(dst, src *secp256k1.Scalar) { copy(dst.S[:], src.S[:]) },
 	func(dst, src *secp256k1.Scalar) { *dst = *src }, // Go-level struct assignment
+	func(dst, src *secp256k1.Scalar) {
+		// the source takes part in operations (which may cache things inside the object), is copied by struct assignment, and
+		// is then changed and used again: the copy must keep the old value in every respect
+		two := secp256k1.NewScalar().SetUInt64(2)
+		_ = src.LessOrEqual(two)
+		two.Pow(src)
+		_ = src.Bits()
+		_ = src.Encode()
+		*dst = *src
+		src.Pow(secp256k1.NewScalar().SetUInt64(3)) // in-place operations on the original right after the copy
+		src.Square()
+		src.Add(secp256k1.NewScalar().One()).Pow(secp256k1.NewScalar().SetUInt64(3))
+		_ = src.LessOrEqual(two)
+		_ = src.Bits()
+		secp256k1.NewScalar().SetUInt64(5).Pow(src)
+	},
 	func(dst, src *secp256k1.Scalar) { z := new(secp256k1.Scalar); z.Add(src); dst.Set(z) }, // through a zero-value scalar
 }
 
